@@ -68,7 +68,8 @@ GOOD = {
     "G3": [A(30), B(31)],
     "G0": [],
 }
-BAD = ["missing", "zero", "garbage", "garbage.gz", "torn", "boundary", "torn.gz", "damaged.gz", "damaged-head.gz", "garbage.lz4", "garbage.zst", "garbage.bz2"]
+BAD = ["missing", "zero", "garbage", "garbage.gz", "torn", "boundary", "torn.gz", "damaged.gz", "damaged-head.gz", "garbage.lz4", "garbage.zst", "garbage.bz2",
+       "junk-after.gz", "badcrc.gz", "junk-after.bz2"]
 SELECTORS = [None, "True", "r.n > 3", "r.s == 'a2' or r.s == 'a21' or r.s == 'a30'", "r.n == -1", "r.w == 'b3' or name(r) == 't/n'",
              "has_field(r, 's') and any(c == 'a' for c in r.s)", "any(c in '24' for c in str(r.n)) and any(c != 'q' for c in name(r))",
              "r.s == 'a2' or True", "not (r.s == 'a2')", "r.w == 'b3' or r.n > 20",
@@ -149,6 +150,21 @@ def build_sources(d):
     p = os.path.join(d, "bad-damaged-head.records.gz")
     open(p, "wb").write(bytes(dmg))
     out["damaged-head.gz"] = (p, None)
+    # sources that deliver ALL their records and fail afterwards (an OSError from the decompressor, not a format error of the
+    # stream): a complete gzip / bz2 file followed by junk, a gzip file whose CRC trailer is wrong
+    p = os.path.join(d, "bad-junk-after.records.gz")
+    open(p, "wb").write(gz + b"JUNK" * 8)
+    out["junk-after.gz"] = (p, GOOD["G1"])
+    crc = bytearray(gz)
+    crc[-8] ^= 0xFF
+    p = os.path.join(d, "bad-badcrc.records.gz")
+    open(p, "wb").write(bytes(crc))
+    out["badcrc.gz"] = (p, GOOD["G1"])
+    import bz2
+
+    p = os.path.join(d, "bad-junk-after.records.bz2")
+    open(p, "wb").write(bz2.compress(g1) + b"JUNK" * 8)
+    out["junk-after.bz2"] = (p, GOOD["G1"])
     for ext in ("lz4", "zst", "bz2"):
         p = os.path.join(d, "bad-garbage.records." + ext)
         open(p, "wb").write(bytes(range(200)))
